@@ -46,6 +46,10 @@ CLAIMED = {
  'C01': dict(engine = 'symx', technique = 'symbolic execution of every public dictable operation with z3 from an arbitrary valid table state (one inductive step over the representation invariant) against a list-of-records model; counterexample replay',
              text = 'A dictable has no state beyond its {column: list} mapping, so "any history" is covered by checking each public operation from every valid table of <= 2 rows (thorough 3) x <= 2 columns with symbolic cells: result equals the list-of-records model, is rectangular, len/shape/iteration/d[i][c]==d[c][i] agree, operands keep the very same cell objects, wrong-length assignments raise ValueError and leave the table unchanged, and in-place changes of results never reach operands (two-step aliasing family).',
              note = 'Trusted: z3, CPython, proxies. The representation invariant (all columns are lists of equal length) is assumed for the pre-state and re-established by each obligation, which is what extends the claim to histories of any length within the size bound. Cells are symbolic ints (mixed kinds in the state obligations).'),
+
+ 'C11': dict(engine = 'symx', technique = 'symbolic execution of real listby/unlist/groupby/ungroup/pivot/unpivot (and the sort/cmp they use) with z3 over symbolic key cells; counterexample replay',
+             text = 'For every table of <= 3 rows (thorough 4) with symbolic int keys (and mixed None/int/float/str keys), one or two key columns: listby has one row per distinct key listing the key\'s values in row order, unlist restores the table stably sorted by key, groupby sizes add up and ungroup restores the multiset, pivot cells hold exactly the z values of their (x, y) (None where absent, aggregated with len/sum), unpivot + dropping None restores the (x, y, z) rows.',
+             note = 'Trusted: z3, CPython, proxies. Payload cells are concrete row ids; pivot labels come from a 3-string pool (they are hashed and become column names) that includes names colliding with parts of column names.'),
 }
 NA = {}
 TODO = 'check not built yet in this session (work in progress); will be decided by symbolic execution of the real code as described in DESIGN.md'
